@@ -20,7 +20,10 @@ from ..util import rng
 Q6 = Decimal("0.000001")
 IDPOOL = ["n1", "n2", "n10", "é", "日本", "a.b", "x→y", "A:1", "z z", "0", "Z", "ö-3", "n_1"]
 SPECIAL = [0.0078125, 0.5000005, -0.0000005, 1e-7, -2.5, 7.0, math.nan, math.inf, -math.inf, 1e308, 5e-324, -0.0,
-           0.1 + 0.2, 1 / 3, -2 / 3, 0.9999995, 0.9999996, 0.2500001, 0.0009999, 0.001, 123456.7890125]
+           0.1 + 0.2, 1 / 3, -2 / 3, 0.9999995, 0.9999996, 0.2500001, 0.0009999, 0.001, 123456.7890125,
+           # a weight that is not a number (JSON null, a string): read like a missing weight (0.0); it must not cost the
+           # edges that are listed after it
+           None, "junk"]
 BOUNDS = [("t4default", None, None), ("t4", -0.5, 0.5), ("t4", -1.0, 0.75), ("graph", -0.25, 0.75), ("t4", 0.25, 1.0),
           ("t4default", None, None), ("graph", -1.0, 1.0)]
 
@@ -176,8 +179,10 @@ def random_case(args) -> List[Tuple[str, Dict[str, Any], str]]:
     exp_edges: Dict[tuple, List[Tuple[float, str, float]]] = {}
     for rec in (graph["edges"].values() if isinstance(graph["edges"], dict) else graph["edges"]):
         pr = tuple(sorted((rec["src"], rec["dst"])))
-        for w in san_adm(float(rec["weight"]), lo, hi, eps):
-            exp_edges.setdefault(pr, []).append((w, rec["rel"], float(rec["weight"])))
+        wraw = rec["weight"]
+        wnum = float(wraw) if isinstance(wraw, (int, float)) and not isinstance(wraw, bool) else 0.0
+        for w in san_adm(wnum, lo, hi, eps):
+            exp_edges.setdefault(pr, []).append((w, rec["rel"], wnum))
     nodes_now = graph["nodes"]
     exp_nodes = json.loads(json.dumps(nodes_now if isinstance(nodes_now, dict) else {x["id"]: x for x in nodes_now}))
     gm = graph.get("meta") or {}
